@@ -2244,3 +2244,19 @@ def int_rem_euclid(ctx):
         q, r = ex.divmod(st, a.t, b.t)
         return Int(r, 64, False)
     return Int(simp(z3.URem(a.t, b.t)), a.bits, False)
+
+
+@contract(r'^core::str::<impl str>::starts_with::<&str>$|^core::str::starts_with::<&str>$|^core::str::<impl str>::ends_with::<&str>$')
+def str_starts_with(ctx):
+    """str::starts_with(&str) / ends_with(&str) for a literal pattern"""
+    ex, st = ctx.ex, ctx.st
+    s = BufLoc(ex, st, ctx.args[0]).val
+    p = ctx.args[1]
+    pv = BufLoc(ex, st, p).val if isinstance(p, Ref) else p
+    if not isinstance(pv, Bytes) or pv.clen() is None:
+        return NotImplemented
+    n = pv.clen()
+    if ctx.callee.endswith('ends_with::<&str>'):
+        off = simp(s.len - n)
+        return Bool(simp(z3.And([z3.UGE(s.len, BV(n, 64))] + [s.at(simp(off + i)) == pv.at(i) for i in range(n)])))
+    return Bool(simp(z3.And([z3.UGE(s.len, BV(n, 64))] + [s.at(i) == pv.at(i) for i in range(n)])))
